@@ -79,7 +79,7 @@ Qed.
 (* ---- one step ---- *)
 Lemma dstep_data st h : map data (fst (dstep_run st h)) = strs_step (map data st) h.
 Proof.
-  destruct h as [k|k e|k q|k j|e| |k gap ix|k gap ix]; cbn [dstep_run strs_step].
+  destruct h as [k|k e|k q|k j|e| |k gap ix|k gap ix|k t|k t]; cbn [dstep_run strs_step].
   - rewrite nth_error_map. destruct (nth_error st k) as [s|]; cbn [option_map fst]; [|reflexivity].
     rewrite map_app. reflexivity.
   - rewrite nth_error_map. destruct (nth_error st k) as [s|] eqn:Ek; cbn [option_map fst]; [|reflexivity].
@@ -97,10 +97,12 @@ Proof.
     rewrite seq_getitem_is_str_getitem. destruct (str_getitem gap (data s) ix); cbn [fst]; [|reflexivity].
     rewrite map_app. cbn [map data]. f_equal. symmetry.
     exact (set_nth_map data st k (set_data s (py_upper x))).
+  - rewrite nth_error_map. destruct (nth_error st k) as [s|]; cbn [option_map fst]; [|reflexivity]. rewrite map_app. reflexivity.
+  - rewrite nth_error_map. destruct (nth_error st k) as [s|]; cbn [option_map fst]; [|reflexivity]. rewrite map_app. reflexivity.
 Qed.
 Lemma dstep_ids st h : map sid (fst (dstep_run st h)) = ids_step_d (map data st) (map sid st) h.
 Proof.
-  destruct h as [k|k e|k q|k j|e| |k gap ix|k gap ix]; cbn [dstep_run ids_step ids_step_d].
+  destruct h as [k|k e|k q|k j|e| |k gap ix|k gap ix|k t|k t]; cbn [dstep_run ids_step ids_step_d].
   - rewrite nth_error_map. destruct (nth_error st k) as [s|]; cbn [option_map fst]; [|reflexivity].
     rewrite map_app. reflexivity.
   - destruct (nth_error st k) as [s|] eqn:Ek; [|reflexivity].
@@ -117,10 +119,12 @@ Proof.
     rewrite seq_getitem_is_str_getitem. destruct (str_getitem gap (data s) ix); cbn [fst]; [|reflexivity].
     rewrite map_app. cbn [map sid set_data]. f_equal.
     rewrite <- set_nth_map. cbn [sid set_data]. apply set_nth_id. rewrite nth_error_map, Ek. reflexivity.
+  - rewrite nth_error_map. destruct (nth_error st k) as [s|]; cbn [option_map fst]; [|reflexivity]. rewrite map_app. reflexivity.
+  - rewrite nth_error_map. destruct (nth_error st k) as [s|]; cbn [option_map fst]; [|reflexivity]. rewrite map_app. reflexivity.
 Qed.
 Lemma dstep_length st h : (length st <= length (fst (dstep_run st h)))%nat.
 Proof.
-  destruct h as [k|k e|k q|k j|e| |k gap ix|k gap ix]; cbn [dstep_run].
+  destruct h as [k|k e|k q|k j|e| |k gap ix|k gap ix|k t|k t]; cbn [dstep_run].
   - destruct (nth_error st k); cbn [fst]; [rewrite app_length; lia|lia].
   - destruct (nth_error st k) as [s|]; [|cbn; lia]. destruct (seq_edit e s); cbn [fst]; [rewrite set_nth_length|]; lia.
   - destruct (nth_error st k); cbn; lia.
@@ -130,6 +134,8 @@ Proof.
   - destruct (nth_error st k) as [s|]; [|cbn; lia]. destruct (seq_getitem gap s ix); cbn [fst]; [rewrite app_length|]; lia.
   - destruct (nth_error st k) as [s|]; [|cbn; lia].
     destruct (seq_getitem gap s ix); cbn [fst]; [rewrite app_length, set_nth_length|]; lia.
+  - destruct (nth_error st k); cbn [fst]; [rewrite app_length; lia|lia].
+  - destruct (nth_error st k); cbn [fst]; [rewrite app_length; lia|lia].
 Qed.
 (* what a query step answers *)
 Lemma dstep_query st k q :
@@ -150,7 +156,7 @@ Proof. reflexivity. Qed.
 Lemma dstep_frame st h j : edits h j = false -> (j < length st)%nat ->
   nth_error (fst (dstep_run st h)) j = nth_error st j.
 Proof.
-  intros He Hj. destruct h as [k|k e|k q|k i|e| |k gap ix|k gap ix]; cbn [dstep_run edits] in *.
+  intros He Hj. destruct h as [k|k e|k q|k i|e| |k gap ix|k gap ix|k t|k t]; cbn [dstep_run edits] in *.
   - destruct (nth_error st k); cbn [fst]; [|reflexivity]. apply nth_error_app1. exact Hj.
   - destruct (nth_error st k) as [s|]; [|reflexivity]. destruct (seq_edit e s); cbn [fst]; [|reflexivity].
     apply set_nth_other. intros ->. rewrite Nat.eqb_refl in He. discriminate.
@@ -163,7 +169,14 @@ Proof.
   - destruct (nth_error st k) as [s|]; [|reflexivity]. destruct (seq_getitem gap s ix); cbn [fst]; [|reflexivity].
     rewrite nth_error_app1 by (rewrite set_nth_length; exact Hj).
     apply set_nth_other. intros ->. rewrite Nat.eqb_refl in He. discriminate.
+  - destruct (nth_error st k); cbn [fst]; [|reflexivity]. apply nth_error_app1. exact Hj.
+  - destruct (nth_error st k); cbn [fst]; [|reflexivity]. apply nth_error_app1. exact Hj.
 Qed.
+(* + and right-+ go through the constructor: the whole result is upper-cased, the id is that of the sequence *)
+Lemma dstep_add st k t s : nth_error st k = Some s ->
+  dstep_run st (DAdd k t) = (st ++ [mkseq (py_upper (data s ++ t)) (sid s)], show_seq (mkseq (py_upper (data s ++ t)) (sid s))) /\
+  dstep_run st (DRadd k t) = (st ++ [mkseq (py_upper (t ++ data s)) (sid s)], show_seq (mkseq (py_upper (t ++ data s)) (sid s))).
+Proof. intros H. cbn [dstep_run]. rewrite H. split; reflexivity. Qed.
 (* what a slicing step answers and appends: the upper-cased str subscript with the id of the source *)
 Lemma dstep_slice st k gap ix s : nth_error st k = Some s ->
   dstep_run st (DSlice k gap ix) =
